@@ -9,7 +9,7 @@ for d in ${ONLY:-selftest/benign/*.diff}; do
   git -C /repo apply $PWD/$d
   if ! (cd /repo && cargo check --offline -q -p poulpy-hal -p poulpy-core -p poulpy-cpu-ref -p poulpy-ckks -p poulpy-bin-fhe 2>/dev/null); then echo "$id DOES-NOT-COMPILE"; git -C /repo checkout -- .; rc=1; continue; fi
   alarms=""
-  for p in ${PROPS:-C02 C06 C09 C10 C11 C12 C13 C16 C17 C18 C19 C20}; do
+  for p in ${PROPS:-C02 C03 C04 C05 C06 C07 C08 C09 C10 C11 C12 C13 C15 C16 C17 C18 C19 C20}; do
     out=$(./pzv check $p 2>&1)
     if echo "$out" | grep -q "^VIOLATION"; then alarms="$alarms $p[$(echo "$out" | grep "rule=" | sed 's/.*rule=\([A-Z0-9-]*\).*/\1/' | sort -u | tr '\n' ' ')]"; fi
   done
